@@ -204,3 +204,49 @@ Print Assumptions C15_emd_satisfiable.
 Theorem C15_authority_types_table : METADATA_AUTHORITY_TYPES = map auth_word all_auth.
 Proof. vm_compute. reflexivity. Qed.
 Print Assumptions C15_authority_types_table.
+
+(* ---- cross-model consistency C15 x C08 (proofs/CrossModelMetaSwhid.v): the SWHID
+   printer of this model (print_swhid / print_core / print_ext: the `target`
+   line and the snapshot / release / revision / directory context lines) is the
+   printer of the full SWHID model of C08 (model/Swhid.v).  Meta prints bytes,
+   Swhid prints text (code points); both are lists of numbers and
+   1. the two lists are EQUAL, for every type word and every id;
+   2. for an id made of bytes they are ASCII, so encoding Swhid's text in UTF-8
+      gives exactly Meta's bytes and decoding Meta's bytes gives the text;
+   3. for a 20-byte id (what a SWHID carries) Swhid's from_string parsers
+      accept Meta's bytes and return the same type word and id - parse_ext for
+      all seven types, parse_core exactly for the five core ones (ori / emd:
+      ValidationError) - as this model's own small reader does.
+   [ext_to_core s] / [to_core s] is the C08 value with Meta's type word and the id;
+   the type words are the SWHID_TYPES / EXTENDED_SWHID_TYPES tables. *)
+From SWH.lib Require Utf8.
+From SWH.model Require Swhid.
+From SWH.proofs Require Import CrossModelMetaSwhid.
+
+Theorem C15_swhid_printer_is_C08s :
+  (forall w id, print_swhid w id = Swhid.print_core (Swhid.mkCore w id)) /\
+  (forall s : eswhid,
+     print_ext s = Swhid.print_core (ext_to_core s) /\
+     In (Swhid.c_ty (ext_to_core s)) EXTENDED_SWHID_TYPES /\
+     (wf_bytes (es_id s) = true ->
+        forallb Utf8.is_ascii (print_ext s) = true /\
+        Utf8.utf8_encode (Swhid.print_core (ext_to_core s)) = Some (print_ext s) /\
+        Utf8.utf8_decode_replace (print_ext s) = Swhid.print_core (ext_to_core s)) /\
+     (wf_bytes (es_id s) = true -> length (es_id s) = 20%nat ->
+        Swhid.parse_ext (print_ext s) = Swhid.Ok (ext_to_core s) /\
+        Swhid.parse_core (print_ext s)
+          = (if tgt_is_core (es_ty s) then Swhid.Ok (ext_to_core s) else Swhid.Err Swhid.EValidation) /\
+        parse_ext (print_ext s) = Some s)) /\
+  (forall s : cswhid,
+     print_core s = Swhid.print_core (to_core s) /\
+     In (Swhid.c_ty (to_core s)) SWHID_TYPES /\
+     (wf_bytes (cs_id s) = true ->
+        forallb Utf8.is_ascii (print_core s) = true /\
+        Utf8.utf8_encode (Swhid.print_core (to_core s)) = Some (print_core s) /\
+        Utf8.utf8_decode_replace (print_core s) = Swhid.print_core (to_core s)) /\
+     (wf_bytes (cs_id s) = true -> length (cs_id s) = 20%nat ->
+        Swhid.parse_core (print_core s) = Swhid.Ok (to_core s) /\
+        Swhid.parse_ext (print_core s) = Swhid.Ok (to_core s) /\
+        parse_core (print_core s) = Some s)).
+Proof. exact swhid_printer_is_C08s. Qed.
+Print Assumptions C15_swhid_printer_is_C08s.
